@@ -31,7 +31,9 @@ pub enum K {
     EndDelev(usize),
     InitRec(usize),
     Withdraw(usize, u64),  // from account idx, by the receiver
+    WithdrawAll(usize),    // the whole collateral position, by the receiver (withdraw_all = Some(true))
     Repay(usize, u64),
+    RepayAll(usize),       // the whole debt, by the receiver (repay_all = Some(true))
     Deposit(usize, u64),
     Borrow(usize, u64),
     OwnWithdraw(usize, u64), // by the account's own authority
@@ -103,7 +105,9 @@ fn build_ix(s: &Scen, cx: &Ctx, k: &K) -> Instruction {
         K::EndDelev(u) => ix::end_deleverage(s.group, s.users[u].acct, cx.risk_admin, s.w.remaining_in_slot_order(&s.users[u].acct)),
         K::InitRec(u) => ix::init_liq_record(s.users[u].acct, cx.receiver),
         K::Withdraw(u, amt) => ix::withdraw(&s.banks[cb], s.users[u].acct, cx.receiver, cx.receiver_toks[cb], amt, None, s.w.remaining_for(&s.users[u].acct, &[])),
+        K::WithdrawAll(u) => ix::withdraw(&s.banks[cb], s.users[u].acct, cx.receiver, cx.receiver_toks[cb], 0, Some(true), s.w.remaining_for(&s.users[u].acct, &[])),
         K::Repay(u, amt) => ix::repay(&s.banks[cl], s.users[u].acct, cx.receiver, cx.receiver_toks[cl], amt, None),
+        K::RepayAll(u) => ix::repay(&s.banks[cl], s.users[u].acct, cx.receiver, cx.receiver_toks[cl], 0, Some(true)),
         K::Deposit(u, amt) => ix::deposit(&s.banks[cb], s.users[u].acct, cx.receiver, cx.receiver_toks[cb], amt, None),
         K::Borrow(u, amt) => ix::borrow(&s.banks[cl], s.users[u].acct, cx.receiver, cx.receiver_toks[cl], amt, s.w.remaining_for(&s.users[u].acct, &[s.banks[cl].bank])),
         K::OwnWithdraw(u, amt) => ix::withdraw(&s.banks[cb], s.users[u].acct, s.users[u].wallet, s.users[u].toks[cb], amt, None, s.w.remaining_for(&s.users[u].acct, &[])),
@@ -134,7 +138,7 @@ fn shape_ok(tx: &[K], liq: bool) -> Result<(), String> {
     }
     for k in &tx[pos + 1..tx.len() - 1] {
         match k {
-            K::Cb | K::Foreign | K::InitRec(_) | K::Withdraw(..) | K::Repay(..) | K::OwnWithdraw(..) | K::OwnRepay(..) => {}
+            K::Cb | K::Foreign | K::InitRec(_) | K::Withdraw(..) | K::WithdrawAll(..) | K::Repay(..) | K::RepayAll(..) | K::OwnWithdraw(..) | K::OwnRepay(..) => {}
             other => return Err(format!("{:?} inside the bracket", other)),
         }
     }
@@ -211,6 +215,15 @@ pub fn run(rng: &mut Rng, n: usize, rep: &mut Report) {
             bk.config.fixed_price = I80F48::from_num(10.0 * f).into();
             s.w.set_bank(&key, &bk);
         }
+        // a quarter of the worlds put the collateral bank into reduce-only (e.g. being sunset): its deposits still count in
+        // full for maintenance AND for the unweighted (equity) valuation that bounds the premium
+        if rng.chance(1, 4) {
+            let key = s.banks[0].bank;
+            let mut bk = s.w.bank(&key);
+            bk.config.operational_state = marginfi_type_crate::types::BankOperationalState::ReduceOnly;
+            s.w.set_bank(&key, &bk);
+            rep.bump("reduce_only_collateral_world");
+        }
         // a third of the worlds cap the collateral bank's value for INITIAL-margin purposes far below its deposits
         // (total_asset_value_init_limit): unweighted (equity) valuation must not be affected by it
         if rng.chance(1, 3) {
@@ -223,6 +236,19 @@ pub fn run(rng: &mut Rng, n: usize, rep: &mut Report) {
         let stranger = s.w.add_wallet(1_000_000_000);
         let stranger_toks: Vec<Pubkey> = s.banks.clone().iter().map(|b| s.w.add_token_account(b.mint, stranger, 1_000_000_000_000)).collect();
 
+        // ---- half of the worlds have a daily dollar limit for forced deleverages, set through the real instruction to a
+        //      fraction of the collateral's dollar value; the monitor keeps its OWN ledger of what left the collateral vault
+        //      in deleverage transactions (independent valuation: tokens x fixed price / 10^decimals)
+        let dollars_total = (dep as f64) * 10.0 * f / 10f64.powi(d0);
+        let mut daily_limit: Option<u32> = None;
+        let mut delev_sum_lower: i128 = 0;
+        if dollars_total >= 4.0 && rng.chance(1, 2) {
+            let lim = ((dollars_total / (2.0 + rng.below(5) as f64)) as u64).clamp(1, u32::MAX as u64 / 2) as u32;
+            if s.w.exec(&ix::configure_deleverage_withdrawal_limit(s.group, s.admin, lim)).is_ok() {
+                daily_limit = Some(lim);
+                rep.bump("daily_limit_world");
+            }
+        }
         for _ in 0..12 {
             // ------------------------------------------------------------ generate a transaction
             let u = if rng.chance(5, 6) { 0 } else { 1 };
@@ -230,8 +256,15 @@ pub fn run(rng: &mut Rng, n: usize, rep: &mut Report) {
             let seize_val = (seize as f64) * 10f64.powi(d1 - d0) * f; // in liability-token units (both base prices are 10)
             let repay = ((seize_val * *rng.pick(&[0.0f64, 0.5, 0.8, 0.9, 0.953, 0.96, 1.0, 1.0, 1.1, 1.3])) as u64).max(1);
             let mut tx: Vec<K> = vec![];
-            let kind = rng.below(11);
-            if kind == 10 {
+            let kind = rng.below(12);
+            if kind == 11 {
+                // a forced deleverage that closes the position out: repay everything, take everything (or a part)
+                if rng.chance(1, 3) { tx.push(K::Cb) }
+                tx.push(K::StartDelev(u));
+                tx.push(if rng.chance(2, 3) { K::RepayAll(u) } else { K::Repay(u, repay) });
+                tx.push(if rng.chance(2, 3) { K::WithdrawAll(u) } else { K::Withdraw(u, seize) });
+                tx.push(K::EndDelev(u));
+            } else if kind == 10 {
                 // two starts on DIFFERENT accounts in one transaction (the empty account 2 and the victim), one end
                 let (first, second) = if rng.chance(1, 2) { (2usize, u) } else { (u, 2usize) };
                 for _ in 0..rng.below(3) { tx.push(K::Cb) }
@@ -250,7 +283,8 @@ pub fn run(rng: &mut Rng, n: usize, rep: &mut Report) {
                 tx.push(if liq { K::StartLiq(u) } else { K::StartDelev(u) });
                 for _ in 0..rng.below(4) {
                     tx.push(match rng.below(12) {
-                        0..=3 => K::Withdraw(u, seize),
+                        0..=2 => K::Withdraw(u, seize),
+                        3 => if rng.chance(1, 2) { K::WithdrawAll(u) } else { K::Withdraw(u, seize) },
                         4..=7 => K::Repay(u, repay),
                         8 => K::Foreign,
                         9 => K::Cb,
@@ -276,9 +310,17 @@ pub fn run(rng: &mut Rng, n: usize, rep: &mut Report) {
                     _ => *rng.pick(&[K::StartFlash(u, 3), K::StartLiq(u), K::EndFlash(1 - u)]),
                 }).collect();
                 if rng.chance(1, 4) { tx.push(K::Cb) }
+                if rng.chance(1, 6) { tx.push(K::EndFlash(u)) } // a stray end BEFORE the start (a no-op on a healthy account)
                 let start_pos = tx.len();
                 let end_pos = start_pos + 1 + body.len();
-                let idx = match rng.below(8) { 0 => start_pos as u64, 1 => end_pos as u64 + 1, 2 => rng.below(6), _ => end_pos as u64 };
+                let idx = match rng.below(10) {
+                    0 => start_pos as u64,
+                    1 => end_pos as u64 + 1,
+                    2 => rng.below(6),
+                    // a u64 argument that only agrees with an instruction index modulo 2^16 (the sysvar's index width)
+                    3 => 65536 * (1 + rng.below(3)) + rng.below(end_pos as u64 + 2),
+                    _ => end_pos as u64,
+                };
                 tx.push(K::StartFlash(u, idx));
                 tx.extend(body);
                 match rng.below(8) {
@@ -297,9 +339,31 @@ pub fn run(rng: &mut Rng, n: usize, rep: &mut Report) {
             let pre_store = s.w.accounts.clone();
             let pre_h: Vec<Option<Health>> = (0..3).map(|i| health(&s.w, &s.users[i].acct)).collect();
             let pre_eq: Vec<(num_bigint::BigInt, num_bigint::BigInt)> = (0..3).map(|i| indep_equity(&s.w, &s.users[i].acct)).collect();
+            let vault_cb0 = s.w.token_amount(&s.banks[0].liquidity_vault);
             let r = s.w.exec_tx(&ixs);
+            if let (Ok(()), Some(lim)) = (&r, daily_limit) {
+                if tx.iter().any(|k| matches!(k, K::StartDelev(_))) {
+                    let out = vault_cb0.saturating_sub(s.w.token_amount(&s.banks[0].liquidity_vault));
+                    let price_bits = bits(s.w.bank(&s.banks[0].bank).config.fixed_price);
+                    let dollars = ((num_bigint::BigInt::from(out) * num_bigint::BigInt::from(price_bits)) / num_bigint::BigInt::from(10u8).pow(d0 as u32)) >> 48u32;
+                    let cnt = tx.iter().filter(|k| matches!(k, K::Withdraw(..) | K::WithdrawAll(..))).count() as i128;
+                    let d: i128 = dollars.to_string().parse().unwrap_or(i128::MAX);
+                    // every withdrawal is metered in whole dollars rounded DOWN: allow one dollar per withdrawal
+                    delev_sum_lower += (d - cnt).max(0);
+                    rep.bump("delev_metered_tx");
+                    if delev_sum_lower > lim as i128 {
+                        rep.fail(format!(
+                            "C12 forced deleverages withdrew at least {} whole dollars within one day under a daily limit of {} (this transaction alone moved {} tokens worth {} dollars out of the collateral vault): {:?}",
+                            delev_sum_lower, lim, out, d, tx
+                        ));
+                    }
+                }
+            }
             rep.bump("cases");
             done += 1;
+            if tx.iter().any(|k| matches!(k, K::WithdrawAll(_))) {
+                rep.bump(&format!("withdraw_all_tx_{}", match &r { Ok(()) => "ok".to_string(), Err((i, e)) => format!("rej_at_{}_{}", i, e.code().map(|c| c.to_string()).unwrap_or_else(|| "other".into())) }));
+            }
             match &r {
                 Err((i, e)) => {
                     rep.bump("tx_rejected");
